@@ -60,10 +60,32 @@ package internals
 //@   ensures[C07] message: result.Message == ""
 //@   ensures[C07] err: result.Err == nil
 
+// FREED(c): the issue container c has been returned to its pool. A container is released exactly once, by the entry
+// point that took it (defer errs.Free()): releasing it a second time would let two later executions share it (C07, C08).
+//@ ghost FREED(Iface) Bool
+//@ iface ZogIssues.Free(self)
+//@   requires iscontainer(self)
+//@   requires[C07,C08] released_once: !FREED(self)
+//@   modifies FREED(self)
+//@   ghost_update FREED(self) := true
+//@ func (*ErrsList).Free(e)
+//@   implements iface ZogIssues.Free
+//@   requires e != nil
+//@   requires[C07,C08] released_once: !FREED(box(e))
+//@   modifies FREED(box(e))
+//@   ghost_update FREED(box(e)) := true
+//@ func (*ErrsMap).Free(s)
+//@   implements iface ZogIssues.Free
+//@   requires s != nil
+//@   requires[C07,C08] released_once: !FREED(box(s))
+//@   modifies FREED(box(s))
+//@   ghost_update FREED(box(s)) := true
+
 //@ func NewErrsList()
 //@   fresh
 //@   modifies nothing
 //@   ghost_update L(box(result)) := empty()
+//@   ghost_update FREED(box(result)) := false
 //@   ensures[C07,C02] list_reset: result.List == nil
 //@   ensures[C02] rep: zrep(box(result))
 
@@ -71,6 +93,7 @@ package internals
 //@   fresh
 //@   modifies nothing
 //@   ghost_update L(box(result)) := empty()
+//@   ghost_update FREED(box(result)) := false
 //@   ensures[C07,C02] map_reset: result.M == nil
 //@   ensures[C02] rep: zrep(box(result))
 
